@@ -56,6 +56,10 @@ pub fn case(ctx: &Ctx, env: &RealEnv, dir: &std::path::Path, case: u64, seed: u6
     if case % 12 == 7 {
         return sigint_case(ctx, env, dir, case, &mut rng, rep);
     }
+    if case % 4 == 1 {
+        // the same clause with n2 writing to a terminal (a different display implementation)
+        return super::real_gated::c16_pty_case(ctx, env, dir, case, seed, rep);
+    }
     // ---- many independent tasks with planned output, exit codes and signals
     let ntasks = if ctx.thorough() { rng.range(8, 64) } else { rng.range(4, 20) };
     let mut p = Project { manifest: "build.ninja".into(), agent: env.agent.to_string_lossy().into_owned(), ..Default::default() };
